@@ -142,6 +142,14 @@ SEEDS = {
                      "1.2.3.4", "", ".", "A.COM", "a‍b", "xn--a", "ab--c.com"],
 }
 
+# absurdly long / deep inputs (no edits, no shrinking): "absurd repetition counts in regexes" and their kin.
+# Every family sees every one of them (the never-raises half is claimed for every string whatsoever).
+ABSURD = ["(" * 50 + ")" * 50, "(" * 500 + ")" * 500, "(" * 3000 + ")" * 3000, "a" * 20000, "[" * 3000,
+          "(?:" * 2000 + ")" * 2000, "a{1,2}" * 3000, "1." * 5000, ":" * 10000, "9" * 5000, "a{" + "9" * 5000 + "}",
+          "a{1," + "9" * 4400 + "}", "(a)" * 200 + "\\200", "\\" + "9" * 5000, "2020-01-" + "0" * 5000 + "1", "1:" * 5000,
+          "a@" + "b" * 10 ** 5, "x" * 10 ** 6, "\u3002" * 5000, "xn--" + "a" * 5000, ("a" * 63 + ".") * 100,
+          "0" * 4400 + ".0.0.0", "::" + "f" * 5000, "12:00:" + "0" * 5000, "a|" * 5000, "(?P<n>" * 300 + ")" * 300]
+
 DATE_YEARS = ["0000", "0001", "1900", "2000", "2019", "2020", "2100", "9999"]
 
 
@@ -236,6 +244,8 @@ def prepare(tier):
                     taken.add(s)
                     e1.append(s)
         _P["lists"][(fam, "edit1")] = e1
+        _P["lists"][(fam, "absurd")] = [x for x in ABSURD if x not in taken and not in_short(x, fam, tier)] \
+            if fam == fams[0] else []      # one family's units carry them; every format sees every string anyway
         _P["sets"][fam] = taken
 
 
@@ -382,7 +392,10 @@ def signature(t, s, kind):
 
 def make_violation(t, s, kind):
     k0 = klass(t, s, kind)
-    small = shrink(s, lambda c: judge(t, c)[1] == kind and klass(t, c, kind) == k0)
+    if len(s) > 300:
+        small = s       # absurd inputs are reported as they are (shrinking them costs O(n^2) compilations)
+    else:
+        small = shrink(s, lambda c: judge(t, c)[1] == kind and klass(t, c, kind) == k0)
     c, b = observe(t, small)
     return {"signature": signature(t, small, kind), "size": len(small),
             "case": {"checker": t.label, "format": t.name, "string": small, "kind": kind},
@@ -423,7 +436,7 @@ def run_strings(strings, fam, edit_space):
             member = bool(exp) if exp is not None else member
         if edit_space or member:
             nt += 1
-            if len(samples) < 2 and nstr % 97 == 5:
+            if len(samples) < 2 and nstr % 97 == 5 and len(s) < 200:
                 samples.append({"family": fam, "string": s, "in_language": bool(member)})
     return {"evaluations": ev, "nontrivial": nt, "violations": viol, "samples": samples, "outcomes": outcomes,
             "counters": {"strings": nstr, "violating_observations": nviol}}
@@ -450,7 +463,7 @@ def plan(ctx):
             for pre in itertools.product(range(len(atoms)), repeat=p):
                 units.append((fam, "short", pre))
             bounds["short:" + fam] = {"atoms": atoms, "max_atoms": n, "strings": short_size(fam, tier)}
-        for kind in ("grid", "edit1"):
+        for kind in ("grid", "edit1", "absurd"):
             lst = _P["lists"].get((fam, kind))
             if lst:
                 for i in range(0, len(lst), CHUNK):
